@@ -68,6 +68,14 @@ fn cardinal_or_ordinal(n: u64, c: &mut dyn Chooser, ord: bool) -> Vec<String> {
         out.push(format!("honderden{}", u[1]));
         return out;
     }
+    // rare: the whole numeral written as ONE word, scale nouns included (not the school-book spelling, but
+    // compound-splitting accepts it and speech-to-text front ends produce it)
+    if style == 1 && !out.is_empty() && c.pick(8) == 7 {
+        t.extend(u);
+        let rest = join(t, 0);
+        let all: String = out.iter().map(|w| if w == "ën" { "en".to_string() } else { w.clone() }).collect::<Vec<_>>().concat() + &rest.concat();
+        return vec![all];
+    }
     match style {
         0 => { out.extend(join(t, 0)); out.extend(join(u, 0)); }
         1 => { t.extend(u); out.extend(join(t, 0)); }
